@@ -38,13 +38,15 @@ ERR_TYPES = {
     "C08Error": C08Error, "ZeroDivisionError": ZeroDivisionError,
     "AssertionError": AssertionError, "EOFError": EOFError, "BrokenPipeError": BrokenPipeError,
     "StopIteration": StopIteration, "OSError": OSError, "FileNotFoundError": FileNotFoundError, "LookupError": LookupError,
-    "C08SubError": None, "AttributeError": AttributeError, "AttributeErrorFrom": AttributeError, "IndexError": IndexError,
+    "C08SubError": None, "AttributeError": AttributeError, "AttributeErrorFrom": AttributeError, "AttributeErrorNatural": AttributeError, "IndexError": IndexError,
     "NotImplementedError": NotImplementedError, "UnicodeError": UnicodeError,
 }
 
 
 def err_message(item, err=None):
     # the "... from ..." wording is what pickle's attribute-lookup error looks like; a user's AttributeError may well look alike
+    if err == "AttributeErrorNatural":          # what `None.upper()`-style bugs of a user's filter look like
+        return "'NoneType' object has no attribute 'c08-err-%d'" % item
     return ("c08-err-%d from c08" % item) if err == "AttributeErrorFrom" else ("c08-err-%d" % item)
 
 
